@@ -482,4 +482,29 @@ theorem reach_ok (p : List (Prim L)) (hc : Closed p) (h : Head L) (hr : Reach p 
     rw [hstep] at this
     exact this h' hmem
 
+/-- a set of heads that passes `closedUnder` is an inductive invariant of the look-up model -/
+theorem closedUnder_sound (p : List (Prim L)) (S : List (Head L)) (hS : closedUnder p S = true) (h : Head L)
+    (hr : Reach p h) : h ∈ S ∧ ∀ c, step p h c ≠ .keyError ∧ step p h c ≠ .invalidLabel ∧ step p h c ≠ .scopeError := by
+  simp only [closedUnder, Bool.and_eq_true, List.contains_iff_mem, List.all_eq_true] at hS
+  obtain ⟨h0, hall⟩ := hS
+  have key : ∀ x, x ∈ S → ∀ c, (step p x c ≠ .keyError ∧ step p x c ≠ .invalidLabel ∧ step p x c ≠ .scopeError) ∧
+      ∀ hs, step p x c = .next hs → ∀ y ∈ hs, y ∈ S := by
+    intro x hx c
+    have := hall x hx c (by cases c <;> simp)
+    cases hst : step p x c with
+    | next hs =>
+      rw [hst] at this
+      simp only [List.all_eq_true, List.contains_iff_mem] at this
+      exact ⟨⟨by simp, by simp, by simp⟩, fun hs' he y hy => by cases he; exact this y hy⟩
+    | keyError => rw [hst] at this; simp at this
+    | invalidLabel => rw [hst] at this; simp at this
+    | scopeError => rw [hst] at this; simp at this
+    | finished => exact ⟨⟨by simp, by simp, by simp⟩, fun hs he => by cases he⟩
+    | popEmpty => exact ⟨⟨by simp, by simp, by simp⟩, fun hs he => by cases he⟩
+  have mem : h ∈ S := by
+    induction hr with
+    | start => exact h0
+    | step x c hs y _ hstep hy ih => exact (key x ih c).2 hs hstep y hy
+  exact ⟨mem, fun c => (key h mem c).1⟩
+
 end NemoVerif.Closed
